@@ -516,7 +516,12 @@ impl AsyncGenerator {
         generator.borrow_mut().data_mut().context = Some(generator_context);
 
         // 8. Assert: result is never an abrupt completion.
-        assert!(!result.is_throw_completion());
+        // NOTE: the body converts every JavaScript exception into a rejection, so the only throw
+        // completion that can get here is an uncatchable engine error (a runtime limit), which
+        // must reach the caller instead of failing an assertion.
+        if let CompletionRecord::Throw(err) = result {
+            return Err(err);
+        }
 
         // 9. Assert: When we return here, genContext has already been removed from the execution context stack and
         //    callerContext is the currently running execution context.
